@@ -286,10 +286,11 @@ class World:
             # which goes on to serve the later commands of the history (the process did not die: the call returned an error)
             r = await self.unlocked(user)
             healthy, r.backend = r.backend, backend
-            try:
-                res = await r.snapshot(paths=list(src_dir) if isinstance(src_dir, (list, tuple)) else [src_dir], note=note, rate_limit=rate_limit)
-            finally:
-                r.backend = healthy
+            # the failing backend stays in place until the caller has declared it dead and its calls have drained (unswap): worker
+            # coroutines of the failed command that are still alive must not reach the healthy store behind the harness's back
+            self._swapped = (r, healthy)
+            res = await r.snapshot(paths=list(src_dir) if isinstance(src_dir, (list, tuple)) else [src_dir], note=note, rate_limit=rate_limit)
+            self.unswap()
             calls, before = [], 0
         else:
             r = await self.unlocked(user, backend, fresh=fresh)
@@ -307,6 +308,12 @@ class World:
         for d in res.chunks:
             self.did(d)
         return res, uploaded
+
+    def unswap(self):
+        sw = getattr(self, '_swapped', None)
+        if sw is not None:
+            sw[0].backend = sw[1]
+            self._swapped = None
 
     async def delete(self, user, names, backend=None):
         r = await self.unlocked(user, backend)
@@ -496,6 +503,20 @@ def run_history(seed, scratch: Path, rep: Report, *, nops, weights, checks, conc
         if nrows != len(want_visible):
             viol('visibility', f'list-snapshots with columns {[c.value for c in cols]} shows {nrows} row(s), the caller\'s key family has {len(want_visible)} snapshot(s)',
                  {'caller': user['name']})
+        # ... and with a filter on the snapshot name (all, a prefix, the complete name of somebody's snapshot): the rows are those of the
+        # caller's family whose NAME matches, whether or not the caller can read their details
+        if want_visible:
+            import re as _re
+            pick = rng.choice(sorted(want_visible))
+            flt = rng.choice(['.', '^' + pick[:6], '^' + pick + '$', pick[3:11]])
+            buf = io.StringIO()
+            with contextlib.redirect_stdout(buf):
+                await cmd(r.list_snapshots(header=False, snapshot_regex=flt), 'list-snapshots')
+            got_ = {ln.split('\t')[0].strip() for ln in buf.getvalue().splitlines() if ln.strip()}
+            want_ = {n for n in want_visible if _re.search(flt, n)}
+            if got_ != want_:
+                viol('visibility', f'list-snapshots with the name filter {flt!r} shows {len(got_)} snapshot(s), {len(want_)} snapshot(s) of the caller\'s key family match it',
+                     {'caller': user['name'], 'missing': sorted(want_ - got_)[:3], 'extra': sorted(got_ - want_)[:3]})
         buf = io.StringIO()
         with contextlib.redirect_stdout(buf):
             await r.list_files(header=False, columns=[repo_hist_columns().SNAPSHOT_NAME, repo_hist_columns().PATH])
@@ -828,6 +849,10 @@ def run_history(seed, scratch: Path, rep: Report, *, nops, weights, checks, conc
                         break
                     await asyncio.sleep(0.001)
                 await asyncio.sleep(0.005)
+                if late or midfail:
+                    # what is left of the failed command on the long-lived object is given time to run into the dead backend
+                    await asyncio.sleep(0.05)
+                world.unswap()
                 if late:
                     lost = [n for n in fb.failed_names if n.startswith('data/') and n not in world.backend.objects]
                     published = {n for n in world.backend.objects if n.startswith('snapshots/')} - snaps_before
